@@ -274,6 +274,7 @@ pub struct Run {
 pub const KEY_SKIP: &str = "import-skipped-after-fork-below-highest-stored-block";
 pub const KEY_BELOW_ALL: &str = "rollback-below-every-stored-block-deletes-nothing";
 pub const KEY_RB_FROM: &str = "rollback-to-scan-start-point-ignored-after-forwards";
+pub const KEY_SKIP_ROOTS: &str = "import-skipped-although-block-range-roots-missing-after-crash";
 
 pub enum Verdict {
     Ok,
@@ -460,6 +461,7 @@ impl Run {
             w
         };
         let node = Node::shared(world);
+        node.lock().unwrap().idle = Idle::NewBlock;
         let sut = Sut::open(&db, node, &self.stack).expect("open fresh database");
         sut.import(t).await.unwrap_or_else(|e| panic!("import of the plain canonical chain into a fresh database failed: {e:?}"));
         let dump = sut.dump().await.expect("dump fresh");
@@ -610,10 +612,16 @@ impl Run {
         let by_number: BTreeMap<u64, &Blk> = chain_before.iter().map(|b| (b.number, b)).collect();
         let pre_stale = pre.blocks.iter().any(|(n, s, hx)| by_number.get(n).map(|b| b.slot != *s || &b.hash_hex() != hx).unwrap_or(true));
         let pre_hi = pre.blocks.last().map(|b| b.0);
-        let pre_min_slot = pre.blocks.iter().map(|b| b.1).min();
         if pre_stale && pre_hi.is_some_and(|h| h >= t) {
             self.labels.insert("trigger:import-skipped-with-stale-data".into());
             self.taint.get_or_insert(KEY_SKIP);
+        }
+        if !pre_stale && pre_hi.is_some_and(|h| h >= t) {
+            let (exp_roots, exp_legacy) = expected_roots(&chain_before, t);
+            if pre.roots.len() < exp_roots.len() || pre.legacy_roots.len() < exp_legacy.len() {
+                self.labels.insert("trigger:import-skipped-with-missing-range-roots".into());
+                self.taint.get_or_insert(KEY_SKIP_ROOTS);
+            }
         }
         {
             let mut n = self.node.lock().unwrap();
@@ -635,6 +643,17 @@ impl Run {
             n.scheduled = None;
             n.take_events()
         };
+        if trace() {
+            let post = self.sut().dump().await.expect("dump");
+            eprintln!(
+                "  {ctx}: result={:?} fired={fired} pre_hi={pre_hi:?} pre_stale={pre_stale} post_blocks={:?}..{:?} roots={:?} legacy={:?}\n    events={ev:?}",
+                res.as_ref().map_err(|e| format!("{e:#}")),
+                post.blocks.first().map(|b| b.0),
+                post.blocks.last().map(|b| b.0),
+                post.roots.iter().map(|r| r.0).collect::<Vec<_>>(),
+                post.legacy_roots.iter().map(|r| r.0).collect::<Vec<_>>(),
+            );
+        }
         if ev.mid_fork_applied.is_some() {
             self.version += 1;
             self.labels.insert("mid-import-fork".into());
@@ -648,13 +667,12 @@ impl Run {
             self.labels.insert("trigger:rollback-to-scan-start-after-forwards".into());
             self.taint.get_or_insert(KEY_RB_FROM);
         }
-        if let (Some(keep), Some(min_slot)) = (ev.lowest_rollback_keep, pre_min_slot) {
-            let chain_now = self.chain();
-            let rb_slot = if keep == 0 { 0 } else { chain_now.get(keep - 1).map(|b| b.slot).unwrap_or(0) };
-            if rb_slot < min_slot {
-                self.labels.insert("trigger:rollback-below-every-stored-block".into());
-                self.taint.get_or_insert(KEY_BELOW_ALL);
-            }
+        if self.sut().store.rollbacks_below_all_stored.swap(0, std::sync::atomic::Ordering::SeqCst) > 0 {
+            self.labels.insert("trigger:rollback-below-every-stored-block".into());
+            self.taint.get_or_insert(KEY_BELOW_ALL);
+        }
+        if self.sut().store.rollbacks.swap(0, std::sync::atomic::Ordering::SeqCst) > 0 {
+            self.labels.insert("rollback-applied-to-store".into());
         }
         if ev.rollback_to_origin > 0 && ev.intersect_not_found > 0 {
             self.labels.insert("resume-point-not-on-chain:fresh-connection".into());
@@ -730,6 +748,10 @@ impl Run {
     }
 }
 
+fn trace() -> bool {
+    std::env::var("VERIF_C13_TRACE").is_ok()
+}
+
 /// run a whole history; returns the report
 pub fn run_case(case: &Case) -> Report {
     let mut rep = Report::new();
@@ -738,6 +760,10 @@ pub fn run_case(case: &Case) -> Report {
     let mut verdict = Verdict::Ok;
     rt.block_on(async {
         for (i, op) in case.ops.iter().enumerate() {
+            if trace() {
+                let n = run.node.lock().unwrap();
+                eprintln!("op #{i} {op:?}  [tip={:?} len={} forks={}]", n.world.tip_number(), n.world.chain.len(), n.world.forks);
+            }
             match op {
                 Op::Extend { n, seed } => run.extend(*n as usize, *seed as u64),
                 Op::Fork { sel, raw, extra, seed } => run.fork(sel, *raw, *extra, *seed).await,
@@ -780,8 +806,21 @@ pub fn run_case(case: &Case) -> Report {
 
 // ------------------------------------------------------------------------------------------------ entry
 
+/// `import` runs on tokio's blocking pool; a panic of the code under test there is reported to the caller as an
+/// error ("worker thread crashed") and handled by the case function, so the default hook's backtrace is only noise.
+fn quiet_worker_panics() {
+    let prev = std::panic::take_hook();
+    std::panic::set_hook(Box::new(move |info| {
+        let on_worker = std::thread::current().name().is_some_and(|n| n.starts_with("tokio-") || n.contains("blocking"));
+        if !on_worker {
+            prev(info);
+        }
+    }));
+}
+
 pub fn run(args: &Args) -> i32 {
     let mut check = Check::new("C13", "exploration", args);
+    quiet_worker_panics();
     check
         .rule(
             "a case = stack configuration (poll size, chunk size, pruning, security parameter) + a history of <= 25 operations \
@@ -803,6 +842,7 @@ pub fn run(args: &Args) -> i32 {
         .require_label("crash-injected")
         .require_label("mid-import-fork")
         .require_label("earlier-beacon-compared");
+    check.shrink_iters(400);
     let t = check.tier;
 
     if !check.is_replay() {
